@@ -210,7 +210,8 @@ Inductive action :=
                            list of temporaries; args += dest *)
 | Call
 | ResultTemp            (* scp.addTemporary(ret) *)
-| FreeArg (k : nat).    (* freeNonPrimitive(args[k]) *)
+| FreeArg (k : nat)     (* freeNonPrimitive(args[k]) *)
+| FreeArgCast (k : nat). (* generic extern callee: freeNonPrimitive(bitcast(args[k]) back to the real list type) *)
 
 Definition arg_action (i : nat) (p : param) (k : argkind) : action :=
   if p_ref p then PassRef i
@@ -295,7 +296,7 @@ Definition step (st : cstate) (a : action) : option cstate :=
     then Some {| st_args := st_args st; st_slots := st_slots st; st_temps := st_temps st;
                  st_called := true; st_result_owned := true; st_freed := st_freed st |}
     else None
-  | FreeArg k =>
+  | FreeArg k | FreeArgCast k =>     (* the cast does not change what is released *)
     if st_called st then
       match nth_error (st_args st) k with
       | Some (VSlot i) =>
@@ -331,3 +332,100 @@ Fixpoint owned_indices (i : nat) (ps : list param) : list nat :=
   | [] => []
   | p :: ps' => (if negb (p_ref p) && negb (is_prim (p_ty p)) then [i] else []) ++ owned_indices (S i) ps'
   end.
+
+(* ---------------------------------------------------------------------------------------------- *)
+(* generic extern functions                                                                       *)
+(* ---------------------------------------------------------------------------------------------- *)
+(* A generic function that is defined in C is declared ONCE, from its generic declaration (VisitFuncDecl swaps an
+   instantiation for decl.GenericInstantiation.GenericDecl). The parser admits a type parameter only inside a
+   Referenz parameter or a list (declarations.go 608-621). getPossiblyGenericParamType (compiler.go 547-555):
+   a parameter whose type mentions T is an i8* when it is a Referenz and a ddpgenericlist* otherwise;
+   getPossiblyGenericReturnType: a result that mentions T is a ddpgenericlist. *)
+Inductive gparam :=
+| GConcrete (p : param)     (* no type parameter inside *)
+| GListVal                  (* "T Liste" by value *)
+| GRef (is_list : bool).    (* "T Listen Referenz" (true) / "T Referenz" (false) *)
+Inductive gret := GRetConcrete (r : option ty) | GRetList.
+Record gsignature := { g_name : str; g_params : list gparam; g_ret : gret }.
+
+Definition ll_genericlist : llty := LStruct go_genericlist_fields.
+Definition c_genericlist : cty := CStruct hdr_genericlist_fields.   (* void *arr; ddpint len; ddpint cap *)
+
+Definition ll_gparam (g : gparam) : llty :=
+  match g with GConcrete p => ll_param p | GListVal => LPtr ll_genericlist | GRef _ => LPtr LI8 end.
+(* published: pointer to ddpgenericlist, ddpgenericlistref (the same), ddpgenericref (pointer to void) *)
+Definition c_gparam (g : gparam) : cty :=
+  match g with
+  | GConcrete p => c_param p
+  | GListVal => CPtr c_genericlist
+  | GRef true => CPtr c_genericlist
+  | GRef false => CPtr CVoid
+  end.
+
+Definition gret_is_prim (r : gret) : bool := match r with GRetConcrete r => ret_is_prim r | GRetList => false end.
+
+Definition lower_gsig (s : gsignature) : ir_signature :=
+  let ret := match g_ret s with GRetConcrete None => LVoid | GRetConcrete (Some r) => ll_ty r | GRetList => ll_genericlist end in
+  let params := map ll_gparam (g_params s) in
+  if negb (gret_is_prim (g_ret s))
+  then {| is_name := g_name s; is_ret := LVoid; is_params := LPtr ret :: params |}
+  else {| is_name := g_name s; is_ret := ret; is_params := params |}.
+
+Definition c_gsig (s : gsignature) : c_signature :=
+  let ret := match g_ret s with GRetConcrete None => CVoid | GRetConcrete (Some r) => c_ty r | GRetList => c_genericlist end in
+  let params := map c_gparam (g_params s) in
+  if negb (gret_is_prim (g_ret s))
+  then {| cs_name := g_name s; cs_ret := CVoid; cs_params := CPtr ret :: params |}
+  else {| cs_name := g_name s; cs_ret := ret; cs_params := params |}.
+
+Definition gsig_of (s : signature) : gsignature :=
+  {| g_name := s_name s; g_params := map GConcrete (s_params s); g_ret := GRetConcrete (s_ret s) |}.
+
+(* Agreement of ABI classes up to untyped pointers: the compiler hands over a byte pointer (or a list behind a
+   pointer to ddpgenericlist whose array is a byte pointer) where the header says pointer to void, pointer to
+   ddpgenericlist or a typed array. *)
+Definition untyped (r : rep) : bool := match r with RInt 8 => true | RVoid => true | _ => false end.
+Fixpoint loose (a b : rep) : bool :=
+  match a, b with
+  | RPtr x, RPtr y => untyped x || untyped y || loose x y
+  | RStruct xs, RStruct ys =>
+    (fix go (l1 l2 : list rep) : bool :=
+       match l1, l2 with
+       | [], [] => true
+       | x :: r1, y :: r2 => loose x y && go r1 r2
+       | _, _ => false
+       end) xs ys
+  | RInt n, RInt m => Nat.eqb n m
+  | RBool, RBool => true
+  | RF64, RF64 => true
+  | RVoid, RVoid => true
+  | RBlob n, RBlob m => Nat.eqb n m
+  | _, _ => false
+  end.
+Definition compat (a b : rep) : Prop := a = b \/ loose a b = true.
+
+(* the call site: the by-value argument of a generic list parameter was passed as ddpgenericlist* and is cast
+   back to the list type of the instantiation before it is released. [gs]: per parameter, whether the GENERIC
+   declaration's parameter mentions T; [ps]: the parameters of the instantiation. *)
+Definition is_list (t : ty) : bool := match strip t with TList _ => true | _ => false end.
+Fixpoint free_actions_g (ret_prim : bool) (i : nat) (ps : list param) (gs : list bool) : list action :=
+  match ps with
+  | [] => []
+  | p :: ps' =>
+    (if p_ref p then [] else if is_prim (p_ty p) then [] else
+       let k := if ret_prim then i else S i in
+       [if is_list (p_ty p) && hd false gs then FreeArgCast k else FreeArg k])
+    ++ free_actions_g ret_prim (S i) ps' (tl gs)
+  end.
+
+(* after the call, the out-slot of a generic list result is cast to the list type of the instantiation before it is
+   registered as a temporary (compiler.go, since 76f45a7): ownership-neutral, ResultTemp as before *)
+Definition call_plan_g (s : signature) (gs : list bool) (ks : list argkind) : list action :=
+  let rp := ret_is_prim (s_ret s) in
+  (if rp then [] else [AllocRet])
+  ++ arg_actions 0 (s_params s) ks
+  ++ [Call]
+  ++ (if rp then [] else [ResultTemp])
+  ++ free_actions_g rp 0 (s_params s) gs.
+
+Definition erase_cast (a : action) : action := match a with FreeArgCast k => FreeArg k | _ => a end.
